@@ -55,7 +55,7 @@ VARIABLES stage, wd, m0, envs, gr, st, rnd
 vars == <<stage, wd, m0, envs, gr, st, rnd>>
 
 AllDevs == {"overridable_read_as_const", "overridable_default_dropped", "relu_clip_negmax", "clip_clip_disjoint",
-            "relu_clip_no_dtype_raise", "graph_input_output_renamed"}
+            "relu_clip_no_dtype_raise", "graph_input_output_renamed", "cse_output_type_lost"}
 
 NOAX == -100
 NOSHP == <<-1000>>          \* static shape unknown (value.shape is None)
@@ -660,24 +660,34 @@ Rules(G, k, S, cm, C) ==
                       Hi(nd) == IF Len(nd.ins) >= 3 THEN BoundV(cm, nd.ins[3]) ELSE NONEB
                   IN IF inn.op = "Relu" /\ n.op = "Relu" THEN RHit("FuseSuccessiveRelu", <<N1("Relu", <<x>>, o)>>, <<>>, j, {}, 0)
                      ELSE IF ~okB THEN NoRule
-                     ELSE IF inn.op = "Relu" /\ n.op = "Clip" THEN        \* Clip(Relu(x), lo, hi)
-                        (IF TY(n.ins[1]).dt = "" THEN (IF "relu_clip_no_dtype_raise" \in C.devs THEN RRaise("FuseSuccessiveClipRelu", {"relu_clip_no_dtype_raise"}) ELSE NoRule)
-                         ELSE LET lo == Max2(0, IF Lo(n) = NONEB THEN 0 ELSE Lo(n)) cn == ClipNode(x, o, n.ins[1], TY(n.ins[1]).dt, lo, Hi(n))
+                     ELSE LET \* element type for the new bounds: of the clipped value, else of the first present bound; when both are
+                              \* unknown the rule declines.  (Before the fix: AttributeError, deviation relu_clip_no_dtype_raise)
+                              DtOf(v) == IF TY(v).dt # "" THEN TY(v).dt ELSE IF bnds # <<>> THEN Get(cm, bnds[1]).dt ELSE ""
+                              noDt(v) == TY(v).dt = "" /\ "relu_clip_no_dtype_raise" \in C.devs
+                          IN
+                     IF inn.op = "Relu" /\ n.op = "Clip" THEN        \* Clip(Relu(x), lo, hi) = Clip(x, max(0, lo), hi)
+                        (IF noDt(n.ins[1]) THEN RRaise("FuseSuccessiveClipRelu", {"relu_clip_no_dtype_raise"})
+                         ELSE IF DtOf(n.ins[1]) = "" THEN NoRule
+                         ELSE LET lo == Max2(0, IF Lo(n) = NONEB THEN 0 ELSE Lo(n)) cn == ClipNode(x, o, n.ins[1], DtOf(n.ins[1]), lo, Hi(n))
                               IN RHit("FuseSuccessiveClipRelu", cn.nodes, cn.inits, j, {}, 0))
-                     ELSE IF inn.op = "Clip" /\ n.op = "Relu" THEN        \* Relu(Clip(x, lo, hi))
-                        (IF TY(x).dt = "" THEN (IF "relu_clip_no_dtype_raise" \in C.devs THEN RRaise("FuseSuccessiveReluClip", {"relu_clip_no_dtype_raise"}) ELSE NoRule)
-                         ELSE LET lo == Max2(0, IF Lo(inn) = NONEB THEN 0 ELSE Lo(inn)) cn == ClipNode(x, o, x, TY(x).dt, lo, Hi(inn))
+                     ELSE IF inn.op = "Clip" /\ n.op = "Relu" THEN        \* Relu(Clip(x, lo, hi)) = Clip(x, max(0, lo), max(0, hi))
+                        (IF noDt(x) THEN RRaise("FuseSuccessiveReluClip", {"relu_clip_no_dtype_raise"})
+                         ELSE IF DtOf(x) = "" THEN NoRule
+                         ELSE LET lo == Max2(0, IF Lo(inn) = NONEB THEN 0 ELSE Lo(inn))
                                   neg == Hi(inn) # NONEB /\ Hi(inn) < 0
-                              IN IF neg /\ "relu_clip_negmax" \notin C.devs THEN NoRule
-                                 ELSE RHit("FuseSuccessiveReluClip", cn.nodes, cn.inits, j, IF neg THEN {"relu_clip_negmax"} ELSE {}, 0))
-                     ELSE        \* Clip(Clip(x, lo1, hi1), lo2, hi2)
-                        (IF TY(x).dt = "" \/ TY(n.ins[1]).dt = ""
-                         THEN (IF "relu_clip_no_dtype_raise" \in C.devs THEN RRaise("FuseSuccessiveClip", {"relu_clip_no_dtype_raise"}) ELSE NoRule)
-                         ELSE LET lo == Combine(Lo(inn), Lo(n), Max2) hi == Combine(Hi(inn), Hi(n), Min2)
-                                  cn == ClipNode(x, o, x, TY(x).dt, lo, hi)
-                                  disj == Lo(n) # NONEB /\ Hi(inn) # NONEB /\ Lo(n) > Hi(inn) /\ (Hi(n) = NONEB \/ Hi(n) > Hi(inn))
-                              IN IF disj /\ "clip_clip_disjoint" \notin C.devs THEN NoRule
-                                 ELSE RHit("FuseSuccessiveClip", cn.nodes, cn.inits, j, IF disj THEN {"clip_clip_disjoint"} ELSE {}, 0))
+                                  old == neg /\ "relu_clip_negmax" \in C.devs          \* before the fix: the negative upper bound was kept
+                                  hi == IF Hi(inn) = NONEB THEN NONEB ELSE IF old THEN Hi(inn) ELSE Max2(0, Hi(inn))
+                                  cn == ClipNode(x, o, x, DtOf(x), lo, hi)
+                              IN RHit("FuseSuccessiveReluClip", cn.nodes, cn.inits, j, IF old THEN {"relu_clip_negmax"} ELSE {}, 0))
+                     ELSE        \* Clip(Clip(x, lo1, hi1), lo2, hi2) = Clip(x, max(lo1, lo2), min(max(hi1, lo2), hi2))
+                        (IF noDt(x) \/ noDt(n.ins[1]) THEN RRaise("FuseSuccessiveClip", {"relu_clip_no_dtype_raise"})
+                         ELSE IF DtOf(x) = "" THEN NoRule
+                         ELSE LET disj == Lo(n) # NONEB /\ Hi(inn) # NONEB /\ Lo(n) > Hi(inn)
+                                  old == disj /\ "clip_clip_disjoint" \in C.devs           \* before the fix: hi1 was not lifted to lo2
+                                  hi1 == IF disj /\ ~old THEN Lo(n) ELSE Hi(inn)
+                                  lo == Combine(Lo(inn), Lo(n), Max2) hi == Combine(hi1, Hi(n), Min2)
+                                  cn == ClipNode(x, o, x, DtOf(x), lo, hi)
+                              IN RHit("FuseSuccessiveClip", cn.nodes, cn.inits, j, IF old /\ (Hi(n) = NONEB \/ Hi(n) > Hi(inn)) THEN {"clip_clip_disjoint"} ELSE {}, 0))
        \* --- _basic_rules
        castid == IF n.op = "Cast" /\ TY(n.ins[1]).dt = n.at.to THEN RHit("CastIdentity", Ident(n.ins[1]), <<>>, 0, {}, 0) ELSE NoRule
        expid == IF n.op = "Expand" /\ ~IsErr(Get(cm, n.ins[2])) /\ TY(n.ins[1]).sh # NOSHP /\ TY(n.ins[1]).sh = Get(cm, n.ins[2]).data
@@ -781,28 +791,33 @@ Dedup(G, i) ==
         IN IF x.name \in SeqToSet(G.outs) \/ J = {} THEN Dedup(G, i + 1)
            ELSE LET keep == G.inits[CHOOSE j \in J : \A j2 \in J : j <= j2].name
                 IN Dedup([G EXCEPT !.inits = RemoveAtSeq(G.inits, i), !.nodes = RenNodes(G.nodes, x.name, keep, FALSE)], i)
-\* CommonSubexpressionEliminationPass (main graph only; control flow skipped)
-RECURSIVE Cse(_, _, _)
-Cse(G, k, S) ==
+\* CommonSubexpressionEliminationPass (main graph only; control flow skipped).  When the removed node's output is a graph output
+\* the surviving value is renamed to it; the code does not carry the output's declared type over (deviation cse_output_type_lost:
+\* the surviving value may be untyped), the design does
+RECURSIVE Cse(_, _, _, _)
+Cse(G, k, S, C) ==
    IF k > Len(G.nodes) THEN [G |-> G, S |-> S]
    ELSE LET n == G.nodes[k]
             J == {j \in 1..(k - 1) : G.nodes[j].op = n.op /\ G.nodes[j].ins = n.ins /\ G.nodes[j].at = n.at /\ Len(G.nodes[j].outs) = Len(n.outs)}
-        IN IF n.op = "If" \/ J = {} THEN Cse(G, k + 1, S)
+        IN IF n.op = "If" \/ J = {} THEN Cse(G, k + 1, S, C)
            ELSE LET e == G.nodes[CHOOSE j \in J : \A j2 \in J : j <= j2]
                     gins == {G.ins[i].name : i \in 1..Len(G.ins)}
-                    RECURSIVE Step(_, _, _)
-                    \* returns [nodes (with node k still present), outs-renames applied]
-                    Step(nodes, i, ident) ==
-                       IF i > Len(n.outs) THEN [nodes |-> nodes, ident |-> ident]
+                    RECURSIVE Step(_, _, _, _, _)
+                    Step(nodes, i, ident, ty, used) ==
+                       IF i > Len(n.outs) THEN [nodes |-> nodes, ident |-> ident, ty |-> ty, used |-> used]
                        ELSE LET ov == n.outs[i] nv == e.outs[i] IN
                             IF ov \in SeqToSet(G.outs)
                             THEN (IF nv \in SeqToSet(G.outs) \/ nv \in gins
-                                  THEN Step(RenNodes(nodes, ov, "#dead" \o Str(i), TRUE), i + 1, Append(ident, N1("Identity", <<nv>>, ov)))
-                                  ELSE Step(RenNodes(RenNodes(nodes, ov, "#dead" \o Str(i), TRUE), nv, ov, TRUE), i + 1, ident))
-                            ELSE Step(RenNodes(nodes, ov, nv, FALSE), i + 1, ident)
-                    st2 == Step(G.nodes, 1, <<>>)
+                                  THEN Step(RenNodes(nodes, ov, "#dead" \o Str(i), TRUE), i + 1, Append(ident, N1("Identity", <<nv>>, ov)), ty, used)
+                                  ELSE LET lost == TyGet(ty, nv).dt = "" /\ TyGet(ty, ov).dt # ""
+                                           keepTy == lost /\ "cse_output_type_lost" \notin C.devs
+                                       IN Step(RenNodes(RenNodes(nodes, ov, "#dead" \o Str(i), TRUE), nv, ov, TRUE), i + 1, ident,
+                                               IF keepTy THEN ty ELSE (ov :> TyGet(ty, nv)) @@ ty,
+                                               IF lost /\ ~keepTy THEN used \cup {"cse_output_type_lost"} ELSE used))
+                            ELSE Step(RenNodes(nodes, ov, nv, FALSE), i + 1, ident, ty, used)
+                    st2 == Step(G.nodes, 1, <<>>, S.ty, S.used)
                     ns == SubSeq(st2.nodes, 1, k - 1) \o st2.ident \o SubSeq(st2.nodes, k + 1, Len(st2.nodes))
-                IN Cse([G EXCEPT !.nodes = ns], k + Len(st2.ident), Log(S, "CSE:" \o n.outs[1]))
+                IN Cse([G EXCEPT !.nodes = ns], k + Len(st2.ident), Log([S EXCEPT !.ty = st2.ty, !.used = st2.used], "CSE:" \o n.outs[1]), C)
 \* OutputFixPass: a graph input that is directly a graph output gets an Identity; the code renames the INPUT (deviation)
 OutFix(G, S, C) ==
    LET gins == {G.ins[i].name : i \in 1..Len(G.ins)}
@@ -907,7 +922,7 @@ LiftSubgraphInits == /\ stage = "liftsub"
 DedupInits == /\ stage = "dedup"
               /\ gr' = Dedup(gr, 1) /\ stage' = "cse" /\ UNCHANGED st /\ Keep
 CSE == /\ stage = "cse"
-       /\ LET r == Cse(gr, 1, st) IN gr' = r.G /\ st' = r.S
+       /\ LET r == Cse(gr, 1, st, Ctx) IN gr' = r.G /\ st' = r.S
        /\ stage' = "outfix" /\ Keep
 OutputFix == /\ stage = "outfix"
              /\ LET r == OutFix(gr, st, Ctx) IN gr' = r.G /\ st' = r.S
@@ -930,7 +945,9 @@ AsG(G) == [inputs |-> [i \in 1..Len(G.ins) |-> G.ins[i].name], inits |-> [i \in 
 \* C03: the current graph computes what the original computes, on every probe (probe 4: overrides of the overridable defaults)
 Preserves == \A k \in 1..Len(envs.feeds) : EvalModel(gr, envs.feeds[k]) = envs.expect[k]
 \* C04
+\* ... and every graph output still has its declared element type
 SigKept == /\ gr.outs = m0.outs
+           /\ \A i \in 1..Len(gr.outs) : TyGet(st.ty, gr.outs[i]).dt # ""
            /\ Len(gr.ins) = Len(m0.ins)
            /\ \A i \in 1..Len(gr.ins) : gr.ins[i] = m0.ins[i]
 WellFormed == LET a == AsG(gr) IN SSA(a) /\ Scoped(a, {}) /\ NoDup(a.outputs)
@@ -958,4 +975,8 @@ AnonWorld == {"anon"}
 R3World == {"r3"}
 VecWorld == {"vec"}
 NoDevs == {}
+\* defects that were real on the pinned tree and are fixed in /repo ("fix: Relu(Clip) and Clip(Clip) fusion ...", "fix: Relu/Clip fusion
+\* raised AttributeError ..."): the implementation model runs without them; a regression shows up as a violation
+FixedDevs == {"relu_clip_negmax", "clip_clip_disjoint", "relu_clip_no_dtype_raise"}
+RealDevs == AllDevs \ FixedDevs
 =============================================================================
